@@ -215,6 +215,10 @@ class Engine:
         self.no_branch = False
 
     # ---- path driver -------------------------------------------------------------
+    salvage = False
+    incomplete = None
+    nincomplete = 0
+
     def run_all(self, body_fn):
         """body_fn(self) executes the target once along the current decision prefix."""
         self.decisions = []
@@ -231,6 +235,15 @@ class Engine:
                 body_fn(self)
             except PathEnd:
                 pass
+            except OutOfSubset as e:
+                # this path left the subset: the function as a whole is undecided, but the other paths are still
+                # explored - an obligation refuted on a path that was executed completely is a genuine refutation
+                if not self.salvage:
+                    raise
+                self.incomplete = self.incomplete or str(e)
+                self.nincomplete += 1
+                if self.nincomplete > 50:
+                    raise
             # backtrack
             while self.decisions and not self.decisions[-1][1]:
                 self.decisions.pop()
